@@ -178,6 +178,40 @@ func checkShards[G algebra.PrimeGroupElement[G, S], S algebra.PrimeFieldElement[
 // persistReload stores every shard on the simulated disk, crashes, reloads and
 // checks that the key material survives unchanged (or, with storage faults,
 // that a reload either fails or yields an equal shard).
+// pmReuse is one long-lived public-material variable that an application (an
+// aggregator, a watch-only node) decodes into again and again.
+type pmReuse[G algebra.PrimeGroupElement[G, S], S algebra.PrimeFieldElement[S]] struct {
+	pm   mpc.BasePublicMaterial[G, S]
+	used int
+}
+
+// reloadPublicMaterial decodes the stored public material of sh into the reused
+// receiver and checks that every accessor reports what was stored.
+func reloadPublicMaterial[G algebra.PrimeGroupElement[G, S], S algebra.PrimeFieldElement[S]](r *pmReuse[G, S], sh *mpc.BaseShard[G, S], id sim.ID, site string, probes map[string]int) *harness.Violation {
+	enc, err := serde.MarshalCBOR(&sh.BasePublicMaterial)
+	if err != nil {
+		return &harness.Violation{Class: "encode-error", Site: site, Detail: err.Error()}
+	}
+	if err := r.pm.UnmarshalCBOR(enc); err != nil {
+		return &harness.Violation{Class: "reload-failed", Site: site, Detail: fmt.Sprintf("public material of %d does not reload into a reused receiver: %v", id, err)}
+	}
+	r.used++
+	if !r.pm.PublicKeyValue().Equal(sh.PublicKeyValue()) {
+		return &harness.Violation{Class: "reload-changed-key", Site: site, Detail: fmt.Sprintf("public material reloaded into a receiver that had held other key material reports another public key than the one stored (holder %d, %d-th use of the receiver)", id, r.used)}
+	}
+	want, ok1 := sh.PublicKeyShares().Get(id)
+	got, ok2 := r.pm.PublicKeyShares().Get(id)
+	if !ok1 || !ok2 || !want.Equal(got) {
+		return &harness.Violation{Class: "reload-changed-public-share", Site: site, Detail: fmt.Sprintf("public material reloaded into a reused receiver reports another public share for %d than the one stored", id)}
+	}
+	enc2, err := serde.MarshalCBOR(&r.pm)
+	if err != nil || !bytes.Equal(enc, enc2) {
+		return &harness.Violation{Class: "reencode-changed", Site: site, Detail: fmt.Sprintf("re-encoding the reloaded public material of %d gives different bytes", id)}
+	}
+	probes["public_material_reloaded_into_reused_receiver"]++
+	return nil
+}
+
 func persistReload[G algebra.PrimeGroupElement[G, S], S algebra.PrimeFieldElement[S]](
 	kit *groupKit[G, S], shards map[sim.ID]*mpc.BaseShard[G, S], ids []sim.ID, w *rand.Rand, diskFaults bool, site string, probes map[string]int,
 ) (map[sim.ID]*mpc.BaseShard[G, S], *harness.Violation) {
